@@ -234,7 +234,7 @@ theorem skel_setInlineStr_ok : Facts.C11.skel_setInlineStr = ["lit inlineStr", "
 /-- skeleton of the Go function (calls, literals, comparison operators, field writes, returns in source order) -/
 theorem skel_setStr_ok : Facts.C11.skel_setStr = ["lit str", "call trimCellValue"] := by decide
 /-- skeleton of the Go function (calls, literals, comparison operators, field writes, returns in source order) -/
-theorem skel_trimCellValue_ok : Facts.C11.skel_trimCellValue = ["if", "op >", "call RuneCountInString", "call string", "if", "op !=", "lit ", "call len", "range", "if", "op ==", "op ||", "op ==", "lit space", "lit preserve", "break", "if", "call EscapeText", "call ReplaceAll", "call String", "lit &#xA;", "lit \n", "call bstrMarshal", "return"] := by decide
+theorem skel_trimCellValue_ok : Facts.C11.skel_trimCellValue = ["if", "op >", "call RuneCountInString", "call string", "if", "op !=", "lit ", "call len", "range", "if", "op ==", "op ||", "op ==", "lit space", "lit preserve", "break", "call bstrMarshal", "if", "op &&", "op !=", "lit ", "call EscapeText", "call ReplaceAll", "call String", "lit &#xA;", "lit \n", "return"] := by decide
 /-- skeleton of the Go function (calls, literals, comparison operators, field writes, returns in source order) -/
 theorem skel_prepareCellStyle_ok : Facts.C11.skel_prepareCellStyle = ["if", "op !=", "return", "if", "op <=", "call len", "if", "op !=", "return", "if", "op !=", "range", "if", "op <=", "op &&", "op <=", "op &&", "op !=", "return", "return"] := by decide
 
